@@ -10,6 +10,7 @@
 (*           output, as integers on a common power-of-two scale, words):    *)
 (*           err2 * 2^106 <= (8 log2(2m))^2 * ref2  (times m^2... for ifft  *)
 (*           the exact output already carries the factor m)                 *)
+(*  Helper:  fn log2m|revbits|fracrevbits|ceilto64b|ceilto32b, x, (nbits), val *)
 (*  Same:    repeated calls gave bit-identical outputs and left the table   *)
 (*           bytes unchanged (booleans measured by the harness)             *)
 EXTENDS Wide, Bits, TLC, Json, IOUtils
@@ -29,7 +30,15 @@ ImpulseOk(ev) ==
 NormOk(ev) ==
   LET c == 8 * (Log2(ev.m) + 1) IN
   MCmp(MShl(MFromWords(ev.err2), 106), MMulS(MFromWords(ev.ref2), c * c)) <= 0
-EventOk(ev) == CASE ev.e = "Impulse" -> ImpulseOk(ev) [] ev.e = "NormErr" -> NormOk(ev)
+\* the small index helpers every table generator relies on (commons_private.c), against independent definitions
+HelperOk(ev) ==
+  CASE ev.fn = "log2m" -> 2 ^ ev.val = ev.x
+    [] ev.fn = "revbits" -> ev.val = BitRev(ev.nbits, ev.x)
+    [] ev.fn = "fracrevbits" -> ev.val = BitRev(16, ev.x)                \* val = fracrevbits(x) * 2^16, x < 2^16
+    [] ev.fn = "ceilto64b" -> ev.val % 64 = 0 /\ ev.val >= ev.x /\ ev.val < ev.x + 64
+    [] ev.fn = "ceilto32b" -> ev.val % 32 = 0 /\ ev.val >= ev.x /\ ev.val < ev.x + 32
+    [] OTHER -> FALSE
+EventOk(ev) == CASE ev.e = "Helper" -> HelperOk(ev) [] ev.e = "Impulse" -> ImpulseOk(ev) [] ev.e = "NormErr" -> NormOk(ev)
                  [] ev.e = "Same" -> ev.identical /\ ev.table_unchanged [] OTHER -> FALSE
 
 Init == l = 1 /\ bad = {}
